@@ -13,16 +13,19 @@ import (
 func init() { props["C16"] = runC16 }
 
 func runC16(c *Ctx) {
-	n := int64(16000)
+	n := int64(80000)
 	if c.Thorough() {
-		n = 1500000
+		n = 5000000
 	}
 	c.Cases(n, func(idx int64, r *Rng) {
 		d := asm.D94
 		if idx%3 == 2 {
 			d = asm.D88
 		}
-		m := []int{3, 7, 80, 8000, 8192, 1 << 20}[r.Intn(6)]
+		m := []int{3, 7, 80, 257, 8000, 8191, 8192}[r.Intn(7)]
+		if r.Chance(1, 60) {
+			m = 1 << 20
+		}
 		maxLen := []int{1, 4, 12}[r.Intn(3)]
 		if maxLen > m {
 			maxLen = m
